@@ -61,6 +61,10 @@ def cases(tier, seed):
     for kind in B["kinds"]:
         for opt in B["opts"]:
             out.append(dict(kind=kind, opt=opt, n=4, b=2, aux="none", tracked="eq", split=[3], key=seed + 5, path="while_loop", inf_param=True))
+    for opt in B["opts"]:
+        for split in ([5], [2, 3]):
+            # training with residual-adaptive refinement active (the generator state it returns is compared too)
+            out.append(dict(kind="ode", opt=opt, n=4, b=2, aux="none", tracked="none", split=split, key=seed + 5, path="while_loop", rar=True))
     out.sort(key=lambda c: (len(c["split"]), sum(c["split"]), c["aux"] != "none", c["tracked"] != "none"))
     return out
 
